@@ -357,6 +357,8 @@ def run(rep, progs, tier):
     rep.rule("C06.roundtrip.oracle-agreement", "class-level verdict = verdict of the tokenizer port on witness words, for every class set")
     rep.rule("C06.choke.render", "String / str / Cow<str> / &A renderers write exactly the escaping routine's output")
     rep.rule("C06.choke.choke", "add_argument writes exactly one 0x20 before the rendered argument")
+    rep.rule("C06.builder.arg-lf", "the line-feed scan covers exactly the rendered argument (C07's rule, decided here for C06's clause)")
+    rep.rule("C06.builder.rollback", "a rejected argument leaves the command as it was: nothing of it precedes the next argument")
     rep.trusted = ["rustc MIR construction", "mpdfacts exporter", "MPD Tokenizer.cxx semantics (NextParam) as transcribed in this file"]
     rep.assume("arguments containing NUL or LF are outside the analysed alphabet (LF is refused by Command::add_argument, see C07; NUL cannot be sent in an MPD request line)")
     for cfg, prog in progs.items():
@@ -364,3 +366,8 @@ def run(rep, progs, tier):
         with rep.importing("C15.", "C06.choke."):
             C15.render_rule(rep, prog, cfg, only=("str", "alloc::string::String", "alloc::borrow::Cow<'_, str>", "&A"))
             C15.choke_rule(rep, prog, cfg, separator_only=True)
+        # what the builder does around the rendered argument: one separator, the line-feed scan over exactly the rendered bytes, a
+        # rejected argument taken back completely (a fragment left behind would become part of the next argument) — C07's rules
+        from .C07 import arg_rules
+        with rep.importing("C07.", "C06.builder."):
+            arg_rules(rep, prog, cfg)
